@@ -8,7 +8,7 @@
 From Coq Require Import ZArith List Bool Lia.
 From Coq Require String.
 Import String.StringSyntax.
-From CV Require Import Base.Val Base.Bytes Base.Tys Gen.Tables Gen.EdsTables Model.Eds Model.RefEds Proofs.Eds_proofs.
+From CV Require Import Base.Val Base.Bytes Base.Tys Gen.Tables Gen.EdsTables Gen.Src Model.Eds Model.RefEds Proofs.Eds_proofs Proofs.Src_eq_eds.
 Import ListNotations.
 Open Scope Z_scope.
 
@@ -110,6 +110,17 @@ Example C08_nv_values :
   int0 (s "-0X1f") = Some (-31).
 Proof. vm_compute. repeat split; reflexivity. Qed.
 
+(* Tie to the source text: eds._signed_int_from_hex and eds._calc_bit_length as translated from the CURRENT
+   source by tools/py2coq.py (Gen/Src.v, regenerated on every run) are the model's conversion and the
+   regenerated CALC_BIT_LENGTH table (evaluated from the running code) on every data type 0..255. *)
+Theorem C08_source_signed_int_is_model : forall t bits n, 1 <= bits -> int0 t = Some n ->
+  signed_int_from_hex t bits = Some (src_signed_int_from_hex n bits).
+Proof. exact src_signed_int_from_hex_eq. Qed.
+
+Theorem C08_source_calc_bit_length_is_table : forall dt, 0 <= dt < 256 ->
+  src_calc_bit_length dt = zassoc dt CALC_BIT_LENGTH.
+Proof. exact src_calc_bit_length_eq. Qed.
+
 Print Assumptions C08_int0_spell.
 Print Assumptions C08_signed_widths.
 Print Assumptions C08_signed_limit_roundtrip.
@@ -120,3 +131,5 @@ Print Assumptions C08_import_of_written_partial.
 Print Assumptions C08_devinfo_table.
 Print Assumptions C08_compact_expanded.
 Print Assumptions C08_lookup_consistent.
+Print Assumptions C08_source_signed_int_is_model.
+Print Assumptions C08_source_calc_bit_length_is_table.
